@@ -1686,6 +1686,9 @@ class SingleItemDecoder(object):
                 if length == -1 and not self.supportIndefLength:
                     raise error.PyAsn1Error('Indefinite length encoding not supported by this codec')
 
+                if length == -1 and tagSet[0].tagFormat != tag.tagFormatConstructed:
+                    raise error.PyAsn1Error('Indefinite length of primitive encoding at %s' % (tagSet,))
+
                 state = stGetValueDecoder
 
                 if LOG:
